@@ -6,8 +6,10 @@
    trip of its dump without a context, and the reachability sweep (per pydantic class: fields probed /
    assignments accepted; arrays probed / writable).  [check_case] runs Model/Config.v [validate] on the
    raw input and compares field by field (reals with Num.close, discrete fields exactly), evaluates the
-   canonical-form clauses directly on the observation, compares the re-validated results with the first
-   one and the accepted assignments with the flag map of the generated class table.  A case whose accepted
+   canonical-form clauses directly on the observation, compares the re-validated results (dump, JSON) with the first one (the dictionary of the
+   validated sub-objects, the second round and the whole dumps are compared by the Python oracle), requires the result of a second spelling of the same dictionary to be
+   identical, and compares the accepted assignments with the flag map of the generated class table and the fields found
+   holding arrays with the generated table of array fields.  A case whose accepted
    configuration holds NaN/inf where the model has a rational (k_bad) fails. *)
 From Coq Require Import String.
 From Coq Require Import QArith Qabs ZArith List Bool Arith.
@@ -25,8 +27,12 @@ Record case := {
   k_same : bool;                            (* model_validate(validated object) is that object *)
   k_dump : option config;                   (* model_validate(model_dump(round_trip=True)) *)
   k_json : option config;                   (* model_validate(json.loads(json.dumps(dump))) *)
+  k_spell : option config;                  (* the same dictionary spelled differently (tuples, ndarrays, numpy scalars, enum
+                                               members, scalars written out to full length, sections as instances), same context;
+                                               the first result again when the case carries no second spelling *)
   k_classes : list (string * (nat * nat));  (* pydantic class, (fields probed, assignments accepted) *)
-  k_arrays : nat * nat                      (* ndarrays probed, writable ones *)
+  k_arrays : nat * nat;                     (* ndarrays probed, writable ones *)
+  k_array_fields : list (string * string)   (* (class, field) of every field found holding an ndarray *)
 }.
 
 (* ---- tolerant comparison of configurations (x = implementation, m = model) ----------------------- *)
@@ -77,13 +83,25 @@ Definition class_ok (e : string * (nat * nat)) : bool :=
 Definition revalidated_ok S (first : config) (again : option config) : bool :=
   match again with Some c => config_close S c first | None => false end.
 
+(* a second spelling of the same dictionary gives the very same configuration: identical rationals, not merely close ones
+   (theorem C18_spelling_irrelevant: the model's outcome is the same term) *)
+Definition respelled_ok (first : config) (again : option config) : bool :=
+  match again with Some c => equiv c first | None => false end.
+
+(* every field seen holding an ndarray is an array field of the generated table (whose stores and converters the theorems
+   C18_arrays_stored_immutable / C18_array_types_converted are about) *)
+Definition array_field_known (p : string * string) : bool :=
+  existsb (fun e : string * list string => String.eqb (fst e) (fst p) && existsb (String.eqb (snd p)) (snd e)) array_fields.
+
 Definition check_case (k : case) : bool :=
   negb (k_bad k) &&
   match validate gen_enums (k_ctx k) (k_nls k) (k_raw k), k_out k with
   | Ok m, Some o =>
       config_close (k_S k) o m && canonical_obs o && k_same k
       && revalidated_ok (k_S k) o (k_dump k) && revalidated_ok (k_S k) o (k_json k)
+      && respelled_ok o (k_spell k)
       && forallb class_ok (k_classes k) && Nat.eqb (snd (k_arrays k)) 0
+      && forallb array_field_known (k_array_fields k)
   | Reject, None => true
   | _, _ => false
   end.
